@@ -222,9 +222,19 @@ func driver(seed uint64, n int, outV, outJSON string, _ []string) {
 		take := func() { image = snapshotDir(realDir); indexedAtCrash = disk.VerifCacheSnapshot(dc) }
 		incomplete := map[string]bool{} // rel path of the file being written at the crash
 		kindOfCrash := r.Intn(4)
+		reupload := c == 0 // corpus case: an interrupted re-upload of an acknowledged CAS blob
+		if reupload {
+			kindOfCrash = 0
+			_ = dc.Put(ctx, cache.CAS, blobs[2].hash, int64(len(blobs[2].data)), bytes.NewReader(blobs[2].data))
+			completed["cas/"+blobs[2].hash] = append(completed["cas/"+blobs[2].hash], blobs[2])
+			text = append(text, fmt.Sprintf("Put(cas,%s..,%d)", blobs[2].hash[:6], len(blobs[2].data)))
+		}
 		switch kindOfCrash {
 		case 0: // k bytes into an upload
 			u := pick()
+			if reupload {
+				u = up{cache.CAS, blobs[2].hash, blobs[2]}
+			}
 			k := 0
 			if len(u.b.data) > 1 {
 				k = r.Intn(len(u.b.data))
@@ -300,6 +310,14 @@ func driver(seed uint64, n int, outV, outJSON string, _ []string) {
 		for i := len(perm) - 1; i > 0; i-- {
 			j := r.Intn(i + 1)
 			perm[i], perm[j] = perm[j], perm[i]
+		}
+		if reupload {
+			// put the incomplete file last (most recent access time)
+			for i, ix := range perm {
+				if incomplete[image[ix].rel] {
+					perm[i], perm[len(perm)-1] = perm[len(perm)-1], perm[i]
+				}
+			}
 		}
 		base := time.Now().Add(-24 * time.Hour)
 		for rank, ix := range perm {
@@ -424,6 +442,13 @@ func driver(seed uint64, n int, outV, outJSON string, _ []string) {
 				case rc == nil:
 					observed = append(observed, "Some GetMiss")
 					rep.Count("read.miss")
+					if total <= max2 && key != inflightKey || (total <= max2 && key == inflightKey && len(completed[key]) > 0) {
+						for _, e := range indexedAtCrash.Order {
+							if e.Key == key && (sz == -1 || sz == e.Item.Size) {
+								failed(fmt.Sprintf("C08: %s was acknowledged and indexed before the kill and the whole image fits in max_size, but after the restart a read (size %d) misses", key[:12], sz))
+							}
+						}
+					}
 				default:
 					body, _ := io.ReadAll(rc)
 					_ = rc.Close()
